@@ -18,7 +18,7 @@ RULE = ('random tree specifications (0-3 changes x 0-3 files, every content '
         'skipped. Non-trivial = serialised tree with >= 2 content sections; '
         'distinct = fingerprint of the specification.')
 FLOOR = {'quick': 3000, 'thorough': 100000}
-REQUIRED_REACH = ['DiffXDOMWriter.write_stream', 'DiffXDOMReader.parse']
+REQUIRED_REACH = ['dom/writer.py:', 'dom/reader.py:']
 REQUIRED_COUNTERS = ['serialised', 'parsed_back_and_compared']
 ASSUMPTIONS = [
     'metadata values are JSON values with string keys (what JSON can carry)',
